@@ -231,8 +231,9 @@ CHECKS["C04"] = {
             "the surviving index entry (the crash-point assertion is guarded by that bound) and the creation branch of LogInnerManager::init (header write, then set_len: the "
             "256-byte intermediate file does reopen as an empty log, by inspection only); RaftLogManager roll-over / catalogue-before-file ordering, snapshot "
             "pointer insertion, split-off; RaftSnapshotManager::complete_snapshot (remove old files, then save catalogue); install_snapshot; the db_lock; the "
-            "last-applied index never pointing past snapshot + log (spans three actors). No bounded stand-in exists for these: a violation there is NOT detected by "
-            "this check. Assumed: the file model of shims/tokio_fs.rs (two handles on one path are independent byte sequences, A-SAMEFILE), axiom_vec_of_seq "
+            "last-applied index never pointing past snapshot + log (spans three actors). No stand-in exists for these: a violation there is NOT detected by "
+            "this check. Behind the two proved log-file writers an always-on BOUNDED stand-in (25 crash images of one log file: the handle of the killed write "
+            "is replaced by a read-only one, the file copied and reopened with the real init) decides when a rewrite takes their text out of the proof's reach. Assumed: the file model of shims/tokio_fs.rs (two handles on one path are independent byte sequences, A-SAMEFILE), axiom_vec_of_seq "
             "(every finite sequence is the view of some Vec; names a ghost witness only).",
     "design_ref": "DESIGN.md §0.9",
 }
